@@ -68,7 +68,7 @@ PROPS = {
             "oprf_padding::insecure::find_smallest_n (search loop; right_hand_side replaced by an arbitrary function of n)",
             "distributions::{Geometric,DoubleGeometric,TruncatedDoubleGeometric}::sample with rand::distributions::Bernoulli::sample (scripted trial outcomes)",
         ],
-        "bounds": "every sample of the support 0..=2*shift, every shift <= 2^20 with 2*shift < 2^width, widths 8/16/32, both directions; all non-NaN f64 / u32 parameter values for the validators; sampler structure (sample == first draw shift+G1-G2 inside 0..=2*shift) for every outcome of the first 6 Bernoulli trials per call (later trials succeed) and every shift <= 10^6",
+        "bounds": "every sample of the support 0..=2*shift, every shift <= 2^20 with 2*shift < 2^width, widths 8/16/32, both directions; all non-NaN f64 / u32 parameter values for the validators; sampler structure (sample == first draw shift+G1-G2 inside 0..=2*shift) for every outcome of the first 6 (thorough: 8) Bernoulli trials per call (later trials succeed) and every shift <= 10^6",
         "outside_claim": "the Bernoulli trial probability 1-exp(-1/s) and the tail-mass formula right_hand_side (libm powf), hence the numeric (epsilon, delta) law, achieved delta (libm powf/exp, unbounded search, probabilities); NaN parameters; dummy-record generation (async)",
         "assumptions": ["the truncated sampler is replaced by its contract: an arbitrary value of 0..=2*shift (share-mapping harnesses)",
                         "sampler-structure harnesses: the RNG is a script whose first 6 draws are 0 or u64::MAX by symbolic choice (Bernoulli success / failure for any 0 < p < 1), later draws succeed",
